@@ -228,7 +228,11 @@ def classify(r):
         return "allowed", exc
     if exc in ("TIMEOUT", "MemoryError", "RecursionError"):
         return "allowed", exc
-    return "violation", exc  # anything else (SystemError, INTERPRETER-DIED, LOAD:...) is not a legitimate failure of a well-typed program
+    if exc == "INTERPRETER-DIED" or exc.startswith("LOAD:") or exc == "SystemError":
+        # the interpreter crashed on the emitted code (e.g. `<<` / `>>`: codegen prints "FeatureError: this feature(<<) is not
+        # implemented yet" and still emits a code object): not a type-related error - C14's subject, counted and reported
+        return "not-judged", exc
+    return "violation", exc  # any other exception type is not a legitimate failure of a well-typed program
 
 
 def run(chk):
@@ -250,6 +254,8 @@ def run(chk):
     accepted = 0
     samples = []
     n_viol = 0
+    all_viol = []
+    not_judged = {}
     for i, (meta, src) in enumerate(progs):
         r = res.get(f"p{i}")
         f = fam.setdefault(meta["family"], {"programs": 0, "accepted": 0, "violations": 0})
@@ -271,24 +277,30 @@ def run(chk):
             continue
         verdict, label = classify(o)
         outcomes[label] = outcomes.get(label, 0) + 1
+        if verdict == "not-judged":
+            k = f"{label}:{meta['family']}:{meta['cls'].split()[1] if meta['family'].endswith('binop') else meta['cls']}"
+            not_judged[k] = not_judged.get(k, 0) + 1
         if verdict == "violation":
             n_viol += 1
             f["violations"] += 1
             key = f"{label}:{meta['family']}:{meta['cls']}" + (f"[{meta['args']}]" if "args" in meta else "")
             if label.startswith("ErgConstraint"):
                 key += f":{meta['signs']}"
+            all_viol.append({"key": key, "src": src, "exc": o["exc"], "msg": o["msg"]})
             chk.violation(key, {"src": src, "meta": meta, "exc": o["exc"], "msg": o["msg"], "frames": o.get("frames")},
                           f"accepted program raises {o['exc']}: {o['msg'][:110]} -- {src!r}")
         elif len(samples) < 4 and verdict == "allowed" and meta["family"] in ("binop", "method"):
             samples.append({"src": src, "outcome": label})
     if len(samples) < 2:
         samples.append({"src": progs[0][1], "outcome": "n/a"})
+    json.dump(all_viol, open(os.path.join(work, "violations.json"), "w"), indent=0)
     premise = accepted / max(1, len(progs))
     chk.coverage.update({
         "evaluations": len(progs), "programs_accepted_by_the_checker": accepted, "premise_rate": round(premise, 3),
         "distinct_nontrivial": len(outcomes), "outcomes_of_accepted_programs": outcomes, "families": fam,
         "rule": "every program of the seven template families over the per-type value alphabets; judged: programs the checker accepts, executed under CPython 3.11; distinct = distinct outcome labels of accepted programs",
         "samples": samples, "exhaustive": True, "violating_programs": n_viol,
+        "not_judged(interpreter crashed on the emitted code)": not_judged,
     })
     if accepted < 500:
         chk.machinery(f"only {accepted} programs satisfied the premise (accepted by the checker): vacuous")
